@@ -651,7 +651,7 @@ def _exec_equiv(plan, ctx):
     _check_label_space(ctx, B, Xq, plan["ykind"], y, "equiv")
     okA, predA, _ = ctx.call(A.predict, Xq)
     okB, predB, _ = ctx.call(B.predict, Xq)
-    if okA and okB and not np.array_equal(np.asarray(predA), np.asarray(predB)):
+    if okA and okB and np.allclose(ra, rb, atol=1e-6, rtol=0) and not np.array_equal(np.asarray(predA), np.asarray(predB)):
         ctx.fail("C17.equiv.predict", "predict differs between the fit history and the equivalent partial_fit history "
                  f"although the raw outputs agree (classes passed to partial_fit in {plan.get('classes_order', 'sorted')} order)")
     for tok in ("bn", "dropout"):
